@@ -17,6 +17,9 @@ Facts(E) ==
   [id    |-> E.id,
    wf    |-> FromStrWF(E),
    no    |-> NonOverlap(E),
+   wfn   |-> wfn,
+   iswf  |-> IntoStrWF(E),
+   bf    |-> BraceFree(E),
    sp    |-> [i \in Idx(E) |-> Spellings(E, E.variants[i])],
    canon |-> [i \in Idx(E) |-> IF wfn THEN CanonicalName(E, E.variants[i]) ELSE <<>>],
    snake |-> [i \in Idx(E) |-> Snakify(E.variants[i].id)],
